@@ -151,7 +151,7 @@ func scratchClass(b []byte) string {
 }
 
 // scratch shapes: what callers hand to Compress as buf.
-var scratchNames = []string{"nil", "len 0 with capacity", "len 8192 cap 8192 (what gpfile passes)", "non-empty, shorter than the input", "non-empty, longer than any compressed form", "reused from the previous call"}
+var scratchNames = []string{"nil", "len 0 with capacity", "len 8192 cap 16384 (what gpfile passes)", "non-empty, shorter than the input", "non-empty, longer than any compressed form", "reused from the previous call", "capacity just above the input length"}
 
 // genScratch draws a scratch buffer with dirty contents.
 func genScratch(t *sim.Tape, prev []byte, dataLen int) ([]byte, int) {
@@ -169,7 +169,11 @@ func genScratch(t *sim.Tape, prev []byte, dataLen int) ([]byte, int) {
 	case 1:
 		return dirty(0, 1+t.Draw(3*dataLen+64)), k
 	case 2:
-		return dirty(8192, 8192), k
+		return dirty(8192, 16384), k
+	case 6:
+		// larger than the input, smaller than the worst-case compressed size
+		c := dataLen + 1 + t.Draw(24)
+		return dirty(t.Draw(2)*t.Draw(c+1), c), k
 	case 3:
 		l := 1 + t.Draw(dataLen+1)
 		return dirty(l, l+t.Draw(2*dataLen+64)), k
@@ -178,7 +182,7 @@ func genScratch(t *sim.Tape, prev []byte, dataLen int) ([]byte, int) {
 		return dirty(l, l+t.Draw(64)), k
 	default:
 		if prev == nil {
-			return dirty(8192, 8192), 2
+			return dirty(8192, 16384), 2
 		}
 		return prev, k
 	}
@@ -197,7 +201,7 @@ var stubEnc = []string{"destination writers and source readers (fault-injecting 
 // Props are the properties served by the stream-sim engine.
 var Props = []*h.Prop{
 	{ID: "C07", Run: c07,
-		Rule:        "one evaluation = one long-lived compressor instance (method, back end and level drawn) receiving a seeded history of 4-16 Compress / Decompress / SetLevel calls: inputs of 0 B-600 KiB (zeros, text, incompressible, mixed, sparse; sizes biased to 4 KiB / 8 KiB), scratch buffers of drawn length and capacity with dirty contents (nil, empty with capacity, the storage layer's len-8192 buffer, shorter than the input, longer than any output, reused), destination writers that fail after j bytes, source readers with short reads / errors / EOF mid-block; every fault-free Compress is decoded by the same instance, a long-lived second instance or a fresh one; non-trivial = at least one round trip with a non-empty dirty scratch buffer or a fired stream fault; distinct = distinct event-log hash",
+		Rule:        "one evaluation = one long-lived compressor instance (method, back end and level drawn) receiving a seeded history of 4-16 Compress / Decompress / SetLevel calls: inputs of 0 B-600 KiB (zeros, text, incompressible, mixed, sparse; sizes biased to 4 KiB / 8 KiB), scratch buffers of drawn length and capacity with dirty contents (nil, empty with capacity, the storage layer's len-8192 cap-16384 buffer, shorter than the input, longer than any output, reused, capacity just above the input length), destination writers that fail after j bytes, source readers with short reads / errors / EOF mid-block; every fault-free Compress is decoded by the same instance, a long-lived second instance or a fresh one; non-trivial = at least one round trip with a non-empty dirty scratch buffer or a fired stream fault; distinct = distinct event-log hash",
 		Real:        realEnc,
 		Stub:        stubEnc,
 		Assumptions: []string{"the input space is sampled, not enumerated", "a source reader that returns fewer bytes than requested makes Decompress fail (the code reads once); that is accepted as an error, wrong data with a nil error is not"}},
